@@ -19,6 +19,7 @@
 #include <core/sync.h>
 #include <datatypes/msg_queue.h>
 #include <distributed/mpi.h>
+#include <log/stats.h>
 #include <verif_hooks.h>
 
 #include <memory.h>
@@ -291,15 +292,21 @@ void gvt_msg_drain(void)
 	// Threads leave the main loop at different moments: until all the local threads got here, one of them can still
 	// start (or be in the middle of) a reduction, which completes only if everybody keeps taking part in it.
 	// Once a thread is waiting here no new reduction is started (see gvt_phase_run()).
+	// A reduction completed here has been (or will be) logged by the threads which complete it in the main loop:
+	// log it too, so that every thread and the node hold the same number of statistics records
 	while(thread_phase != thread_phase_idle) { // flush partial gvt algorithm
-		gvt_phase_run();
+		simtime_t gvt = gvt_phase_run();
+		if(unlikely(gvt != 0.0))
+			stats_on_gvt(gvt);
 		mpi_remote_msg_drain();
 	}
 	// announce the arrival only when idle: a waiting thread leaves as soon as everybody arrived and it is idle itself
 	atomic_fetch_add_explicit(&drain_waiting, 1U, memory_order_acq_rel);
 	while(thread_phase != thread_phase_idle ||
 	    atomic_load_explicit(&drain_waiting, memory_order_acquire) != global_config.n_threads) {
-		gvt_phase_run();
+		simtime_t gvt = gvt_phase_run();
+		if(unlikely(gvt != 0.0))
+			stats_on_gvt(gvt);
 		mpi_remote_msg_drain();
 	}
 
